@@ -8,6 +8,10 @@ import os
 from harness import core
 
 _cache = {}
+# expressions that use helper functions/variables local to a test file are not self-contained: skipped
+API_NAMES = {"A", "Adv", "C", "D", "DT", "N", "NO", "P", "Pro", "Q", "V", "AP", "AdvP", "CP", "NP", "PP", "VP", "S", "SP",
+             "root", "subj", "det", "mod", "comp", "coord", "fromJSON", "oneOf", "choice", "mix", "True", "False", "None",
+             "datetime", "getLanguage"}
 
 
 def _segment(lines, node):
@@ -58,7 +62,8 @@ def load(repo=None):
                         and not left.args):
                     seg = _segment(lines, left.func.value)
                     exp = node.test.comparators[0]
-                    if seg and len(seg) < 4000:
+                    names = {n.id for n in ast.walk(left.func.value) if isinstance(n, ast.Name)}
+                    if seg and len(seg) < 4000 and names <= API_NAMES:
                         out.append({"lang": lang, "src": " ".join(seg.split()), "file": fn, "setup": setup,
                                     "expected": exp.value if isinstance(exp, ast.Constant) else None})
     _cache[repo] = out
